@@ -287,7 +287,7 @@ def run(ctx):
     for h in range(100 if ctx.thorough else 20):
         impl = world.ImplWorld(ctx.pool)
         typed_h = h % 3 == 2               # every third history on typed trees (the overrides of the typed classes)
-        mal_h = 0.3 if h % 4 == 1 else 0.03    # every fourth with many refused calls (what a refusal leaves behind is searched)
+        mal_h = 0.3 if (h % 4 == 1 or (typed_h and h % 2 == 0)) else 0.03    # every fourth with many refused calls (what a refusal leaves behind is searched)
         impl.new(typed_h)
         impl.new(typed_h)
         impl._bij = world.Bij()
